@@ -1,8 +1,9 @@
 ------------------------------ MODULE DsSeq_MC ------------------------------
 EXTENDS DsSeq
-Init == lastValid = [s \in Senders |-> 1] /\ delivered = <<>> /\ lastSent = -1
+Init == lastValid = [s \in Senders |-> 1] /\ delivered = <<>> /\ lastSent = -1 /\ wire = <<>>
 Next == \/ \E s \in Senders \cup {0}, n \in 0..MaxSeq, ok \in BOOLEAN : Len(delivered) < 4 /\ Recv(s, n, ok)
         \/ \E n \in 0..MaxSeq + 1 : SendOk(n)
+        \/ \E n \in 0..MaxSeq + 1 : SendDropped(n)
         \/ SendExhausted
 Spec == Init /\ [][Next]_vars
 AboveInitial == \A a \in 1..Len(delivered) : delivered[a][2] > 1
